@@ -13,13 +13,42 @@
        (C18_seq_mismatch_dropped_field); two same-kind fields exchanged between read and write parse
        silently and exchange the members (C18_seq_mismatch_swapped_fields); a trailing field read but
        not written runs off the archive (C18_seq_mismatch_extra_trailing_read).
+     * NESTED descriptions (C18Nested.v: desc = primitive | object with named fields | vector (length, elements) |
+       fixed run | pointer), by structural induction over the description: read of a description equal to the write
+       description restores everything streamed AT EVERY DEPTH and leaves the rest of the archive untouched
+       (C18_nested_roundtrip); with the coverage obligation of every object node, every non-transient member of every
+       nested object is the root of a restored field (C18_nested_class_roundtrip); deep coverage = the class's own
+       obligation && that of its fields' descriptions (C18_nested_cover_composes), and coincides with the flat
+       obligation for flat classes (C18_nested_cover_flat); a member an object node does not stream keeps the FRESH
+       object's value, so an object differing there is not restored (C18_nested_dropped_member_not_restored);
+     * the Data<T> layout as coded in Dataset.h / Impl/Dataset.inl / Shape.h (number of batches, per batch a pointer
+       record and the batch, then the shape): read(write(d)) has the same batches in the same order and the same shape,
+       for every batch description, every list of batches -- incl. the empty dataset and a single one-element batch
+       -- read into any fresh dataset (C18_data_roundtrip, _eq, _empty, _single_element); the description the
+       translator regenerates (one primitive container field) has the same token layout (C18_data_desc_prim_same_layout);
+     * text and binary archives (C18Text.v: the vector serializer of LinAlg/BLAS/cpu/dense.hpp: size item; resize on
+       loading; elements only when non-empty): the stream of a vector is the size word followed by one word per element
+       (text) / 8 size bytes followed by the element bytes (binary), an EMPTY vector is the single word "0"; loading
+       into any stale vector consumes exactly these items, also for consecutive vectors with empty ones among them
+       (C18_text_vec_roundtrip_aligned, C18_text_empty_vec_is_one_word, C18_text_empty_vec_aligned,
+       C18_text_vecs_roundtrip_aligned, C18_bin_vec_roundtrip_aligned); tokenising the printed character stream gives
+       back the words (C18_text_vec_chars_roundtrip); the early-return variant of seeded change C18-3 stays aligned but
+       keeps the stale target (C18_vec_early_return_empty_keeps_stale_target).
    TIED to /repo on every run (not proved in this file): tools/translate_serial.py regenerates, per
-   serializable class X, coq/gen/C18_X.v with write_fields_X / read_fields_X / members_X /
+   serializable class X, coq/gen/c18/C18_X.v with write_fields_X / read_fields_X / members_X /
    transient_X and the obligations rw_X (read_fields_X = write_fields_X, by reflexivity), cover_X
-   (covers ... = true, by vm_compute) and stale_X; tools/c18.py compiles each file separately.
+   (covers ... = true, by vm_compute) and stale_X, plus the nested descriptions wdesc_X / rdesc_X (member classes as
+   parameters) with nrw_X; tools/c18.py compiles each file separately, composes the nested descriptions in
+   coq/gen/C18NestedAll.v (deep_rw_X uses deep_rw_Y of the member classes Y; roundtrip_X instantiates
+   C18_nested_class_roundtrip) and checks coq/gen/C18DataTie.v (regenerated Data / LabeledData / Shape = modelled
+   layout).  read()/write() that delegate to a helper member function are translated by inlining the helper
+   (self-test on synthetic classes, harness/c18_selftest/, every run).  The extracted vector-stream model is run next to
+   Boost's real text and binary archives (harness class VectorStream: same words / bytes) on every run.
    MONITORED only (C++ harness harness/c18_*.cpp, text and binary archives): that the restored C++
-   object behaves identically (outputs, parameters, dataset structure, next optimizer iterates).
-   Not modelled: Boost.Serialization itself (class-id/version/tracking records, pointer tracking);
+   object behaves identically (outputs, parameters, dataset structure, next optimizer iterates; incl. the
+   multi-objective optimizers with a configured indicator reference point, weighted datasets, image models).
+   Not modelled: Boost.Serialization itself (archive header, class-id/version/tracking and object-id records, pointer
+   tracking); the 4 classes that loop over constructor-fixed structure are not composed into C18NestedAll.v;
    "behaves identically" follows from "all non-transient members equal" only under the assumption
    that behaviour is a function of those members and of the constructor-supplied structure. *)
 From Coq Require Import List Arith Bool ZArith String.
